@@ -10,16 +10,12 @@ Notation mstate := (gmap (list (list N)) memfile).
 Theorem C03_initial : wf mem_new.
 Proof. exact wf_new. Qed.
 
-(** every lock section of MemoryFS keeps the tree well formed, given what the preceding
-    section of the same call established ([sec_guard]: the parent is a directory for the two
-    inserting sections; the target is childless and not the root for the remove section) *)
+(** every lock section of MemoryFS keeps the tree well formed ([sec_guard]: the root is not removed) *)
 Theorem C03_sections : forall (c : msec) (s : mstate), wf s -> sec_guard c s -> wf (fst (msec_sem c s)).
 Proof. exact msec_wf. Qed.
 
 (** every trait call of MemoryFS - of the right or of the wrong type for its target, successful
-    or failing - keeps the tree well formed; the caller's obligation ([call_guard]) is the parent
-    check that VfsPath::create_dir / create_file perform before calling the backend, and not
-    removing the root *)
+    or failing, on any path - keeps the tree well formed; [call_guard] only excludes removing the root *)
 Theorem C03_trait_calls : forall (c : fscall) (s : mstate), wf s -> call_guard c s -> wf (fst (mem_step c s)).
 Proof. exact mem_step_wf. Qed.
 
@@ -46,9 +42,7 @@ Example C03_example :
   fst (mem_step (CRemoveDir [[97%N]; [98%N]]) s) = s.
 Proof.
   cbn zeta. split; [|vm_compute; repeat split; eauto].
-  apply mem_step_wf; [apply mem_step_wf; [apply wf_new|]|]; cbn.
-  - intros d H. unfold mem_new in H. apply lookup_singleton_Some in H as [_ <-]. reflexivity.
-  - intros d H. vm_compute in H. inversion H. reflexivity.
+  apply mem_step_wf; [apply mem_step_wf; [apply wf_new|exact I]|exact I].
 Qed.
 
 Print Assumptions C03_initial.
